@@ -1012,6 +1012,16 @@ caption_command(vbi_decoder *vbi, struct caption *cc,
 		ch->attr.opacity = (c2 & 1) ? VBI_SEMI_TRANSPARENT : VBI_OPAQUE;
 		ch->attr.background = palette_mapping[(c2 >> 1) & 7];
 
+		/* EIA 608-B Section 6.2: The code incorporates a
+		   backspace, it replaces the standard space which is
+		   transmitted before it. */
+		if (ch->col > 1 && ch->col < COLUMNS - 1) {
+			ch->col--;
+
+			if (ch->col < ch->col1)
+				ch->col1 = ch->col;
+		}
+
 		/* This is a set-at spacing attribute. */
 		put_char_space(cc, ch);
 
